@@ -174,6 +174,9 @@ def ref_slope(name, params, x):
     """analytic d/dx of the reference model"""
     if name in USER_MODELS:
         return USER_MODELS[name][3](x, params)
+    if name in POLY_MODELS:
+        d = len(params) - 1
+        return float(sum((d - i) * float(c) * float(x) ** (d - i - 1) for i, c in enumerate(params) if d - i >= 1))
     if name == "userquad":
         a, b = params
         return 2 * a * x + b
@@ -316,6 +319,16 @@ def gen_xrange(rng, xs, nparams, valid=True):
     return None
 
 
+def large_x_data(rng, family, deg, n):
+    grid = {"0..1000": range(0, 1001, 5), "+-5000": range(-5000, 5001, 25), "+-1e5": range(-100000, 100001, 500)}[family]
+    xs = [float(x) for x in rng.sample(list(grid), n)]
+    big = max(abs(x) for x in xs) or 1.0
+    # every term contributes about [big] at the edge of the range
+    truth = [rng.choice([-1, 1]) * (rng.randrange(4, 17) / 8.0) * big / big ** (deg - i) for i in range(deg + 1)]
+    ys = [float(round((peval(truth, x) + rng.uniform(-0.2, 0.2) * big) * 16) / 16) for x in xs]
+    return xs, ys
+
+
 def gen_poly_case(rng, malformed=False):
     model = rng.choice(POLY_MODELS + ("polynomial",))
     deg = {"linear": 1, "quadratic": 2}.get(model) or rng.choice([1, 2, 3, 3, 4, 5])
@@ -328,11 +341,18 @@ def gen_poly_case(rng, malformed=False):
     truth = [dy8(rng, -2, 2) / (1 + i) for i in range(npar)]
     noise = rng.choice([0.5, 1.0, 4.0])
     ys = [float(round((peval(truth, x) + rng.uniform(-noise, noise)) * 16) / 16) for x in xs]
-    case = {"kind": "poly", "model": model, "deg": deg, "designator": rng.choice(["str", "enum"]),
+    large = None
+    if deg >= 3 and model == "polynomial" and rng.random() < 0.3:
+        # LARGE |x| (a wavelength in nm, a time in ms ...): the columns x^d .. x^0 of the design matrix differ by many
+        # orders of magnitude; the reference is exact arithmetic, numpy.polyfit meets 1e-12 sigma on these inputs
+        large = rng.choice(["0..1000", "+-5000"] + (["+-1e5"] if deg == 3 else []))
+        xs, ys = large_x_data(rng, large, deg, n)
+    case = {"kind": "poly", "model": model, "deg": deg, "designator": rng.choice(["str", "enum"]), "large_x": large,
             "degrees_kw": not (model == "polynomial" and deg == 3 and rng.random() < 0.5),
             "xs": xs, "ys": ys, "xerr": None if rng.random() < 0.7 else gen_err_pattern(rng, n),
             "yerr": gen_err_pattern(rng, n), "xrange": None, "mode": rng.choice(MODES)}
-    if use_range:
+    if use_range and not large:
+        # (no x-range on large-|x| data: a narrow window far from the origin measures numpy.polyfit's own accuracy)
         case["xrange"] = gen_xrange(rng, xs, npar)
     elif rng.random() < 0.1:
         case["xrange"] = rng.choice(["empty_tuple", "empty_list"])
@@ -351,6 +371,8 @@ def gen_poly_case(rng, malformed=False):
     if isinstance(case["yerr"], list) and rng.random() < 0.15:
         i = rng.randrange(n)
         case["yerr"][i] = case["yerr"][i] / 64.0          # one much smaller uncertainty among ordinary ones
+    if not malformed and not large and rng.random() < 0.1:
+        add_repeat(rng, case)
     if malformed:
         what = rng.choice(["lo>hi", "badlen", "nonreal", "few", "empty", "toofew_all"])
         case["malformed"] = what
@@ -446,6 +468,16 @@ def minimal_family():
                          "family": "minimal"}
                     if well_posed_poly(c):
                         out.append(c)
+    lrng = __import__("random").Random(20260930)
+    for family, deg in (("+-5000", 5), ("+-5000", 4), ("0..1000", 5), ("0..1000", 4), ("+-1e5", 3), ("+-5000", 3)):
+        for weighted in (False, True):
+            n = deg + 4
+            xs, ys = large_x_data(lrng, family, deg, n)
+            c = {"kind": "poly", "model": "polynomial", "deg": deg, "designator": "str", "degrees_kw": True, "xs": xs, "ys": ys,
+                 "xerr": None, "yerr": [abs(y) / 16 + 1 for y in ys] if weighted else None, "xrange": None, "mode": "lists",
+                 "family": "minimal", "large_x": family}
+            if well_posed_poly(c):
+                out.append(c)
     truths = {"userquad": [1.5, -2.0], "exponential": [4.0, 0.5], "gaussian": [6.0, 0.5, 1.25], "u_linear": [1.5, 2.5],
               "u_quadratic": [0.75, -2.0], "u_polynomial": [1.0, -0.5, 0.25], "u_exponential": [0.5, 4.0],
               "u_gaussian": [0.5, 1.25, 6.0], "u_model4": [1.0, 2.0, -0.75, 0.25]}
@@ -552,6 +584,8 @@ def gen_curve_case(rng, noise_free=False, model=None, yscale=None):
     add_dimensions(rng, case)
     if case["mode"] == "plot_fit" and case["xrange"] is not None:
         case["mode"] = "dataset_kw"
+    if rng.random() < 0.1:
+        add_repeat(rng, case)
     return case
 
 
@@ -734,8 +768,91 @@ def finite(v):
 
 
 def run_case(case, observe_result=False):
-    """returns obs = {"exn", "exn_text", "rec": {...}, "params", "errs", "result": {...}}"""
+    """returns obs = {"exn", "exn_text", "rec": {...}, "params", "errs", "result": {...}}; for data sets built from repeated
+    measurements obs["eff_case"] is the case with the values / uncertainties the data objects actually report"""
+    if case.get("repeat"):
+        return run_repeated(case, observe_result)
     return run_call(lambda: call_fit(case), case, observe_result)
+
+
+REPEAT_OFFSETS = {3: [-1.0, 0.0, 1.0], 4: [-1.0, 1.0, -0.5, 0.5], 5: [-1.0, -0.5, 0.0, 0.5, 1.0]}
+
+
+def add_repeat(rng, case):
+    """the y points (sometimes the x points too) are REPEATED measurements q.Measurement([...]): their uncertainty in use is
+    the error on the mean, which differs from their sample standard deviation"""
+    n = len(case["xs"])
+    ymag = max(abs(y) for y in case["ys"]) or 1.0
+    unit = 2.0 ** round(math.log2(ymag / 16.0))
+
+    def samples(center, spread):
+        off = REPEAT_OFFSETS[rng.choice([3, 4, 4, 5])]
+        return [center + spread * o for o in off]
+    rep = {"y": [samples(y, unit * rng.randrange(1, 17) / 8.0) for y in case["ys"]], "x": None,
+           "holder": rng.choice(["lists", "marray", "dataset"])}
+    if case["kind"] == "curve" and rng.random() < 0.4:
+        rep["x"] = [samples(x, rng.randrange(1, 9) / 64.0) for x in case["xs"]]
+    case["repeat"] = rep
+    case["mode"] = "lists"
+    for key in ("numtype", "preread", "plot"):
+        case.pop(key, None)
+    # what the data objects will report (approximately; the run reads the exact numbers off the objects)
+    def err_on_mean(v):
+        m = sum(v) / len(v)
+        return math.sqrt(sum((t - m) ** 2 for t in v) / (len(v) - 1)) / math.sqrt(len(v))
+    case["yerr"] = [err_on_mean(v) for v in rep["y"]]
+    case["ys"] = [sum(v) / len(v) for v in rep["y"]]
+    if rep["x"]:
+        case["xerr"] = [err_on_mean(v) for v in rep["x"]]
+        case["xs"] = [sum(v) / len(v) for v in rep["x"]]
+    return case
+
+
+def fit_kwargs(case):
+    kw = {}
+    if case["kind"] == "poly" and case["model"] == "polynomial" and case.get("degrees_kw", True):
+        kw["degrees"] = case["deg"]
+    if case["kind"] == "curve":
+        kw["parguess"] = list(case["guess"])
+    if case["xrange"] is not None:
+        kw["xrange"] = xrange_arg(case)
+    if case.get("parnames"):
+        kw["parnames"] = list(case["parnames"])
+    return kw
+
+
+def run_repeated(case, observe_result=False):
+    q = _q()
+    rep = case["repeat"]
+    yobjs = [q.Measurement(list(v)) for v in rep["y"]]
+    e = {}
+    if rep.get("x"):
+        xobjs = [q.Measurement(list(v)) for v in rep["x"]]
+        xs, xerr = [float(o.value) for o in xobjs], [float(o.error) for o in xobjs]
+        xarg = xobjs
+    else:
+        xs = list(case["xs"])
+        n = len(xs)
+        xerr = [0.0] * n if case["xerr"] is None else [float(v) for v in case["xerr"]] if isinstance(case["xerr"], list) \
+            else [float(case["xerr"])] * n
+        xarg = list(xs)
+        if case["xerr"] is not None:
+            e["xerr"] = list(case["xerr"]) if isinstance(case["xerr"], list) else case["xerr"]
+    eff = dict(case, xs=xs, xerr=xerr, ys=[float(o.value) for o in yobjs], yerr=[float(o.error) for o in yobjs],
+               repeat=None, mode="lists")
+    kw = fit_kwargs(case)
+    model = model_arg(case)
+    holder = rep.get("holder", "lists")
+    if holder == "marray":
+        thunk = (lambda: q.fit(q.MeasurementArray(xarg, **({"error": e["xerr"]} if "xerr" in e else {})),
+                               q.MeasurementArray(yobjs), model, **kw))
+    elif holder == "dataset":
+        thunk = (lambda: q.fit(q.XYDataSet(xarg, yobjs, **e), model, **kw))
+    else:
+        thunk = (lambda: q.fit(xarg, yobjs, model, **e, **kw))
+    obs = run_call(thunk, eff, observe_result)
+    obs["eff_case"] = eff
+    return obs
 
 
 def run_call(thunk, case, observe_result=False):
@@ -781,7 +898,7 @@ def run_call(thunk, case, observe_result=False):
 #         "xs", "ys", "xerr", "yerr": the data the object is created with,
 #         "requests": [ {kind, model, deg, designator, degrees_kw, xrange, xrange_type, guess, ...}, ... ],
 #         "steps": [ ["fit", k] | ["yerr", [..]] | ["xerr", [..]] | ["y", i, v] | ["yerr1", i, e] | ["xerr1", i, e] ]}
-REQ_KEYS = ("malformed", "kind", "model", "deg", "designator", "degrees_kw", "xrange", "xrange_type", "guess", "truth", "noise_free", "as_lambda", "parnames")
+REQ_KEYS = ("malformed", "large_x", "kind", "model", "deg", "designator", "degrees_kw", "xrange", "xrange_type", "guess", "truth", "noise_free", "as_lambda", "parnames")
 
 
 def request_of(case):
@@ -902,6 +1019,8 @@ def gen_history(rng, curve=None):
             base = gen_poly_case(rng)
             if isinstance(base["xrange"], str):
                 base["xrange"] = None
+        if base.get("repeat"):
+            continue          # in-place edits below address plain points
         n = len(base["xs"])
         npar = nparams_of(base)
         reqs = [request_of(base)]
@@ -909,7 +1028,10 @@ def gen_history(rng, curve=None):
         if rng.random() < 0.5:
             other = dict(reqs[0])
             r = rng.random()
-            if r < 0.5 or curve:
+            if base.get("large_x"):
+                other.update(model="polynomial", deg=3 if base["deg"] != 3 else 4, degrees_kw=True)
+                other.pop("parnames", None)
+            elif r < 0.5 or curve:
                 other["xrange"] = gen_xrange(rng, base["xs"], npar + 1 if curve else npar) if base["xrange"] is None else None
             elif r < 0.75:
                 other.update(model="polynomial", deg=(base["deg"] % 3) + 1, degrees_kw=True)
@@ -1206,6 +1328,7 @@ def observe(res, case):
             "band": [float(f(x).error) for x in ev],
             "table": [float(f(float(x)).value) for x in case["xs"]],
             "residuals": [float(r.value) for r in res.residuals],
+            "residual_errors": [float(r.error) for r in res.residuals],
             "chi2": float(res.chi_squared), "ndof": int(res.ndof),
         })
         # evaluate again at the same points after the value returned the first time was used / modified by its owner
@@ -1306,6 +1429,13 @@ def signature(why):
     return re.sub(r"[-+]?\d[\d.e+-]*", "#", why or "")[:48]
 
 
+def numerically_lost(case, obs):
+    """a LARGE-|x| polynomial fit whose result object could not be built because the library's first-order propagation of
+    the residuals came out (by rounding: the terms cancel to 1e-16 of their size) negative.  Reported to the maintainers
+    as a robustness observation; not an input on which C06 / C07 can be judged."""
+    return bool(case.get("large_x")) and obs.get("exn_type") == "UndefinedActionError"
+
+
 def strip(obs):
     """JSON-able part of an observation"""
     return {k: v for k, v in obs.items() if not k.startswith("_")}
@@ -1358,6 +1488,8 @@ def shrink_case(case, fails):
             for key in ("xs", "ys", "xerr", "yerr"):
                 if isinstance(c.get(key), list):
                     c[key] = c[key][:i] + c[key][i + 1:]
+            if c.get("repeat"):
+                c["repeat"] = {k: (v[:i] + v[i + 1:] if isinstance(v, list) else v) for k, v in c["repeat"].items()}
             if len(c["xs"]) > nparams_of(c) + 1 and attempt(c):
                 changed = True
                 break
